@@ -459,3 +459,68 @@ where
         Ok(())
     }
 }
+
+#[cfg(feature = "verif-hooks")]
+impl<W, E, CommandBuffer, HistoryBuffer> Clone for Cli<W, E, CommandBuffer, HistoryBuffer>
+where
+    W: Write<Error = E> + Clone,
+    E: embedded_io::Error,
+    CommandBuffer: Buffer + Clone,
+    HistoryBuffer: Buffer + Clone,
+{
+    fn clone(&self) -> Self {
+        Self {
+            editor: self.editor.clone(),
+            #[cfg(feature = "history")]
+            history: self.history.clone(),
+            input_generator: self.input_generator.clone(),
+            prompt: self.prompt,
+            writer: self.writer.clone(),
+            #[cfg(not(feature = "history"))]
+            _ph: PhantomData,
+        }
+    }
+}
+
+#[cfg(feature = "verif-hooks")]
+impl<W, E, CommandBuffer, HistoryBuffer> Cli<W, E, CommandBuffer, HistoryBuffer>
+where
+    W: Write<Error = E>,
+    E: embedded_io::Error,
+    CommandBuffer: Buffer,
+    HistoryBuffer: Buffer,
+{
+    pub fn __verif_editor(&self) -> Option<&Editor<CommandBuffer>> {
+        self.editor.as_ref()
+    }
+
+    pub fn __verif_editor_mut(&mut self) -> Option<&mut Editor<CommandBuffer>> {
+        self.editor.as_mut()
+    }
+
+    #[cfg(feature = "history")]
+    pub fn __verif_history(&self) -> &History<HistoryBuffer> {
+        &self.history
+    }
+
+    #[cfg(feature = "history")]
+    pub fn __verif_history_mut(&mut self) -> &mut History<HistoryBuffer> {
+        &mut self.history
+    }
+
+    pub fn __verif_input_generator(&self) -> Option<&InputGenerator> {
+        self.input_generator.as_ref()
+    }
+
+    pub fn __verif_prompt(&self) -> &'static str {
+        self.prompt
+    }
+
+    pub fn __verif_writer(&self) -> &W {
+        &self.writer
+    }
+
+    pub fn __verif_writer_mut(&mut self) -> &mut W {
+        &mut self.writer
+    }
+}
